@@ -131,10 +131,10 @@ func (in *Instance) ProjectState() (M, []string) {
 			}
 			s[ak["k"].(string)] = vs[1] != 0
 		case "maxBody":
-			if !ok || vs[1] > 1<<30 {
+			if !ok || SizeSym(vs[1]) == -777 {
 				bad(k, "value")
 			}
-			s["maxBody"] = int(vs[1])
+			s["maxBody"] = SizeSym(vs[1])
 		case "threshold":
 			if !ok || vs[1] > 0xFFFFFFFF {
 				bad(k, "value")
@@ -318,7 +318,7 @@ func (in *Instance) ProjectEvents(evs []sdk.Event) []any {
 		case *types.TokenControllerUpdated:
 			out = append(out, M{"e": "TokenControllerUpdated", "prev": t.AddrSym(ev.PreviousTokenController), "new": t.AddrSym(ev.NewTokenController)})
 		case *types.MaxMessageBodySizeUpdated:
-			out = append(out, M{"e": "MaxMessageBodySizeUpdated", "size": int(ev.NewMaxMessageBodySize)})
+			out = append(out, M{"e": "MaxMessageBodySizeUpdated", "size": SizeSym(ev.NewMaxMessageBodySize)})
 		case *types.RemoteTokenMessengerAdded:
 			out = append(out, M{"e": "RemoteTokenMessengerAdded", "d": t.DomSym(ev.Domain), "addr": b32m(t.BytesSym(ev.RemoteTokenMessenger))})
 		case *types.RemoteTokenMessengerRemoved:
